@@ -101,6 +101,12 @@ type workerCfg struct {
 	Replay    string         `json:"replay"`
 	RepoHead  string         `json:"repo_head"`
 	NoShrink  bool           `json:"no_shrink"`
+	Known     []knownPattern `json:"known"`
+}
+
+type knownPattern struct {
+	Class string `json:"class"`
+	Match string `json:"match"`
 }
 
 type workerOut struct {
@@ -116,6 +122,7 @@ type workerOut struct {
 	DetChecked   int              `json:"det_checked"`
 	DetMismatch  []string         `json:"det_mismatch"`
 	Violations   []string         `json:"violations"`
+	KnownHits    int              `json:"known_hits"`
 	ViolClasses  []string         `json:"violation_classes"`
 	Machinery    []string         `json:"machinery"`
 	Samples      []any            `json:"samples"`
@@ -294,6 +301,7 @@ type aggregate struct {
 	machinery         []string
 	samples           []any
 	maxRunnable       int
+	knownRuns         int
 	perConfig         map[string]map[string]any
 }
 
@@ -405,6 +413,13 @@ func check(id, tier string) int {
 		return 2
 	}
 	shards := shardsFromEnv()
+	knownAll := loadKnown()
+	var knownPats []knownPattern
+	for _, k := range knownAll.Known {
+		if k.Property == id {
+			knownPats = append(knownPats, knownPattern{Class: k.Class, Match: k.Match})
+		}
+	}
 	agg := &aggregate{sigs: map[string]struct{}{}, stats: map[string]int64{}, outcomes: map[string]int{}, perConfig: map[string]map[string]any{}}
 	head := repoHead()
 	replayDir := filepath.Join(verifDir, "replays")
@@ -426,6 +441,9 @@ func check(id, tier string) int {
 				tc.runs = int(float64(tc.runs) * f)
 			}
 		}
+		if v := os.Getenv("VERIF_DET_PCT"); v != "" {
+			tc.detPct, _ = strconv.Atoi(v)
+		}
 		bw := built[c.build]
 		race := builds[c.build].race
 		cfgAgg := map[string]any{}
@@ -439,7 +457,7 @@ func check(id, tier string) int {
 				defer wg.Done()
 				wc := workerCfg{Property: id, Engine: p.engine, Config: c.name, Seed: seed*1000003 + uint64(ci), Shard: sh, Shards: shards,
 					Runs: tc.runs, WallSec: tc.wallSec, Out: filepath.Join(scratch, fmt.Sprintf("out-%s-%d.json", c.name, sh)),
-					ReplayDir: replayDir, Params: c.params, DetPct: tc.detPct, RepoHead: head}
+					ReplayDir: replayDir, Params: c.params, DetPct: tc.detPct, RepoHead: head, Known: knownPats}
 				timeout := time.Duration(tc.wallSec*float64(time.Second))*3 + 10*time.Minute
 				wo, output, err := runWorker(bw.bin, wc, timeout, race)
 				mu.Lock()
@@ -473,6 +491,7 @@ func check(id, tier string) int {
 				agg.detChecked += wo.DetChecked
 				agg.detMismatch = append(agg.detMismatch, wo.DetMismatch...)
 				agg.violations = append(agg.violations, wo.Violations...)
+				agg.knownRuns += wo.KnownHits
 				agg.violClasses = append(agg.violClasses, wo.ViolClasses...)
 				agg.machinery = append(agg.machinery, wo.Machinery...)
 				if len(agg.samples) < 3 {
@@ -492,7 +511,7 @@ func check(id, tier string) int {
 			cfgAgg["rewrites"] = bw.instr.Stats
 		}
 		agg.perConfig[c.name] = cfgAgg
-		if len(agg.violations) > 0 {
+		if len(agg.violations) > agg.knownRuns { // some violation is not a listed finding: no need to run further configs
 			break
 		}
 	}
@@ -501,12 +520,13 @@ func check(id, tier string) int {
 	}
 
 	// verify violations by fresh-process replay; classify against known findings
-	known := loadKnown()
+	known := knownAll
 	exit := 0
 	var lines []string
 	sort.Strings(agg.violations)
 	reported := 0
 	knownHits := 0
+	knownPrinted := map[string]bool{}
 	for _, path := range agg.violations {
 		if strings.HasSuffix(path, ".txt") { // data race report
 			lines = append(lines, fmt.Sprintf("VIOLATION property=%s replay=%s", id, path))
@@ -545,7 +565,10 @@ func check(id, tier string) int {
 		isKnown := false
 		for _, k := range known.Known {
 			if k.Property == id && k.Class == rf.Violation.Class && (k.Match == "" || strings.Contains(rf.Violation.Msg, k.Match)) {
-				lines = append(lines, fmt.Sprintf("KNOWN-FINDING: property=%s %s", id, k.What))
+				if !knownPrinted[k.What] {
+					lines = append(lines, fmt.Sprintf("KNOWN-FINDING: property=%s %s", id, k.What))
+					knownPrinted[k.What] = true
+				}
 				isKnown = true
 				knownHits++
 				_ = os.Remove(path)
@@ -637,6 +660,7 @@ func writeEvidence(p *property, tier string, seed uint64, agg *aggregate, wall f
 		"components":                p.components,
 		"worker_processes":          shards,
 		"known_findings_hit":        known,
+		"runs_ending_in_a_known_finding": agg.knownRuns,
 		"exhaustive":                false,
 	}
 	if len(agg.samples) == 0 {
